@@ -1,5 +1,5 @@
 (* Glue only: file bytes -> Coq `list N` -> extracted model -> bytes.
-   usage: modeldrv (seq|pure|fc) <in> <out> *)
+   usage: modeldrv (seq|pure|fc|cs) <in> <out> *)
 
 let rec pos_of_int (i : int)   : Model.positive =
   if i = 1 then Model.XH
@@ -50,6 +50,18 @@ let () =
      let flush_case () =
        if Buffer.length buf > 0 then begin
          output_string oc (string_of_coq (Model.run_file (coq_of_string (Buffer.contents buf))));
+         Buffer.clear buf
+       end in
+     List.iter (fun l ->
+         if String.length l >= 5 && String.sub l 0 5 = "CASE " then flush_case ();
+         Buffer.add_string buf l; Buffer.add_char buf '\n') lines;
+     flush_case ()
+   | "cs" ->
+     let lines = String.split_on_char '\n' text in
+     let buf = Buffer.create 4096 in
+     let flush_case () =
+       if Buffer.length buf > 0 then begin
+         output_string oc (string_of_coq (Model.cs_file (coq_of_string (Buffer.contents buf))));
          Buffer.clear buf
        end in
      List.iter (fun l ->
